@@ -42,6 +42,7 @@ pub fn check_all(h: &Hist, out: &Outcome, props: &[&str]) -> OracleOut {
             }
         }
     };
+    run_p("C03", &|| oracle_p::check_c03_concurrent(h));
     run_p("C01", &|| oracle_p::check_c01(h));
     run_p("C02", &|| oracle_p::check_c02(h));
     run_p("C06", &|| oracle_p::check_c06(h));
